@@ -123,10 +123,8 @@ fn gen_value(rng: &mut Rng, depth: u32) -> Value {
 fn known_class(v: &Value) -> Option<&'static str> {
     if let Value::Record(attrs, items) = v {
         if !attrs.is_empty() && items.len() == 1 {
-            if let Item::ValueItem(Value::Record(a2, _)) = &items[0] {
-                if a2.is_empty() {
-                    return Some("F1");
-                }
+            if let Item::ValueItem(Value::Record(_, _)) = &items[0] {
+                return Some("F1");
             }
         }
         for a in attrs {
@@ -160,6 +158,110 @@ fn known_class(v: &Value) -> Option<&'static str> {
         }
     }
     None
+}
+
+/// An independent, verbose rendering of a value as Recon text (always quoted texts, floats in
+/// exponent form, record bodies always in braces), used to obtain values *produced by the parser*.
+fn render(v: &Value, out: &mut String) {
+    match v {
+        Value::Extant => {}
+        Value::Int32Value(n) => out.push_str(&n.to_string()),
+        Value::Int64Value(n) => out.push_str(&n.to_string()),
+        Value::UInt32Value(n) => out.push_str(&n.to_string()),
+        Value::UInt64Value(n) => out.push_str(&n.to_string()),
+        Value::Float64Value(x) => out.push_str(&format!("{:e}", x)),
+        Value::BooleanValue(b) => out.push_str(if *b { "true" } else { "false" }),
+        Value::BigInt(n) => out.push_str(&n.to_string()),
+        Value::BigUint(n) => out.push_str(&n.to_string()),
+        Value::Text(t) => render_text(t.as_str(), out),
+        Value::Data(b) => {
+            out.push('%');
+            out.push_str(&base64(b.as_ref()));
+        }
+        Value::Record(attrs, items) => {
+            for a in attrs {
+                out.push('@');
+                render_text(a.name.as_str(), out);
+                if a.value != Value::Extant {
+                    out.push('(');
+                    render(&a.value, out);
+                    out.push(')');
+                }
+                out.push(' ');
+            }
+            out.push('{');
+            for (i, it) in items.iter().enumerate() {
+                if i > 0 {
+                    out.push(',');
+                }
+                match it {
+                    Item::ValueItem(x) => render(x, out),
+                    Item::Slot(k, x) => {
+                        render(k, out);
+                        out.push(':');
+                        render(x, out);
+                    }
+                }
+            }
+            out.push('}');
+        }
+    }
+}
+fn render_text(t: &str, out: &mut String) {
+    out.push('"');
+    for c in t.chars() {
+        match c {
+            '"' => out.push_str("\\\""),
+            '\\' => out.push_str("\\\\"),
+            c if (c as u32) < 0x20 => out.push_str(&format!("\\u{:04x}", c as u32)),
+            c => out.push(c),
+        }
+    }
+    out.push('"');
+}
+fn base64(data: &[u8]) -> String {
+    const T: &[u8] = b"ABCDEFGHIJKLMNOPQRSTUVWXYZabcdefghijklmnopqrstuvwxyz0123456789+/";
+    let mut s = String::new();
+    for ch in data.chunks(3) {
+        let b = [ch[0], *ch.get(1).unwrap_or(&0), *ch.get(2).unwrap_or(&0)];
+        let n = ((b[0] as u32) << 16) | ((b[1] as u32) << 8) | b[2] as u32;
+        s.push(T[(n >> 18) as usize & 63] as char);
+        s.push(T[(n >> 12) as usize & 63] as char);
+        s.push(if ch.len() > 1 { T[(n >> 6) as usize & 63] as char } else { '=' });
+        s.push(if ch.len() > 2 { T[n as usize & 63] as char } else { '=' });
+    }
+    s
+}
+
+/// Does printing and parsing fail to reproduce this value exactly?
+fn fails(v: &Value, pr: fn(&Value) -> String) -> bool {
+    match parse(&pr(v)) {
+        Ok(back) => format!("{:?}", back) != format!("{:?}", v),
+        Err(_) => true,
+    }
+}
+
+/// The smallest part of a failing value that still fails (a failure is judged by its smallest witness:
+/// only that decides whether it belongs to a known finding).
+fn shrink_failing(v: &Value, pr: fn(&Value) -> String) -> Value {
+    if let Value::Record(attrs, items) = v {
+        let mut parts: Vec<&Value> = attrs.iter().map(|a| &a.value).collect();
+        for it in items {
+            match it {
+                Item::ValueItem(x) => parts.push(x),
+                Item::Slot(k, x) => {
+                    parts.push(k);
+                    parts.push(x);
+                }
+            }
+        }
+        for p in parts {
+            if fails(p, pr) {
+                return shrink_failing(p, pr);
+            }
+        }
+    }
+    v.clone()
 }
 
 fn parse(s: &str) -> Result<Value, String> {
@@ -284,6 +386,37 @@ fn main() {
             ("print_recon_compact", |v| print_recon_compact(v).to_string()),
             ("print_recon_pretty", |v| print_recon_pretty(v).to_string()),
         ];
+        // a value produced by the parser (from an independent rendering of v0) must be recovered exactly
+        let mut text = String::new();
+        render(&v0, &mut text);
+        if let Ok(vp) = parse(&text) {
+            if format!("{:?}", vp) != format!("{:?}", v0) && vp != v0 {
+                *kinds.entry("renderer_reads_differently".into()).or_default() += 1;
+            }
+            for (name, pr) in printers.iter() {
+                oracle_evals += 1;
+                let r = catch(std::panic::AssertUnwindSafe(|| {
+                    let s = pr(&vp);
+                    match parse(&s) {
+                        Ok(back) if format!("{:?}", back) == format!("{:?}", vp) => Ok(()),
+                        other => Err(format!("{}: the parser produces {:?} from {:?}; printed as {:?} it reads back as {:?}", name, vp, text, s, other)),
+                    }
+                }));
+                match r {
+                    Ok(Ok(())) => {}
+                    Ok(Err(e)) => {
+                        let small = shrink_failing(&vp, *pr);
+                        match known_class(&small) {
+                            Some(class) => *known_hits.entry(class).or_default() += 1,
+                            None => failures.push(format!("{} [smallest failing part: {:?} printed as {:?}]", e, small, pr(&small))),
+                        }
+                    }
+                    Err(m) => failures.push(format!("{} of {:?} panicked: {}", name, vp, m)),
+                }
+            }
+        } else {
+            *kinds.entry("renderer_text_rejected".into()).or_default() += 1;
+        }
         for (name, pr) in printers.iter() {
             oracle_evals += 1;
             let res = catch(std::panic::AssertUnwindSafe(|| {
